@@ -216,6 +216,109 @@ fn run_case(gen: &Gen, dir: std::path::PathBuf, idx: usize, c: &CaseSpec) -> Res
     Ok(outcome)
 }
 
+//------------ two TALs next to each other -----------------------------------
+
+/// Two TALs whose trust anchor certificates live next to each other (same
+/// host, same rsync module / https directory).
+#[derive(Clone, Debug)]
+pub struct PairSpec {
+    https: bool,
+    /// which of the two trust anchor certificates expires between the runs
+    /// (None: both live for a year)
+    short: Option<usize>,
+}
+
+const PAIR_SHORT_LIFE: i64 = 3;
+
+fn pair_tree(host: &str, c: &PairSpec) -> TreeSpec {
+    let mk = |i: usize| {
+        let name = format!("ta{}", ["a", "b"][i]);
+        let mut ta = CaSpec::new(&name, i, host, &format!("repo{i}"));
+        ta.v4 = vec![(Ipv4Addr::new(10, i as u8, 0, 0), 16)];
+        ta.asns = vec![(64496 + i as u32, 64496 + i as u32)];
+        ta.objs = vec![ObjSpec::roa("r", 64496 + i as u32, &format!("10.{i}.0.0"), 16, 16)];
+        if c.short == Some(i) { ta.cert_not_after = PAIR_SHORT_LIFE; }
+        TalSpec {
+            name: ["alpha", "beta"][i].into(), ta_uri: format!("rsync://{host}/ta/{name}.cer"), ca: ta,
+            wrong_key: false, https_uri: if c.https { Some(format!("https://{host}/ta/{name}.cer")) } else { None },
+        }
+    };
+    TreeSpec { tals: vec![mk(0), mk(1)] }
+}
+
+/// Run 1: both downloads fine. (With a short-lived certificate: wait, then
+/// run 2 with everything still published.) Last run: no trust anchor
+/// certificate can be downloaded. Every TAL whose stored certificate is
+/// still valid must contribute in the last run.
+fn run_pair(gen: &Gen, dir: std::path::PathBuf, idx: usize, c: &PairSpec) -> Result<String, (String, String)> {
+    let host = format!("tp{idx}.c10.example");
+    let image = Builder::new(gen, Stale::Reject).build(&pair_tree(&host, c));
+    let built = std::time::Instant::now();
+    let case = Case::new(dir);
+    case.write_tals(&image);
+    if c.https {
+        // https only: with an rsync URI as well, the collector's own copy
+        // of the module would stand in and the store would never be asked
+        for (name, text) in &image.tals {
+            let only: String = text.lines().filter(|l| !l.starts_with("rsync://")).map(|l| format!("{l}\n")).collect();
+            fs::write(case.dir.join("tals").join(format!("{name}.tal")), only).unwrap();
+        }
+    }
+    let mut config = case.config();
+    config.disable_rrdp = false;
+    let reachable = Arc::new(Mutex::new(true));
+    let _g = {
+        let (reachable, certs, host2) = (reachable.clone(), image.ta_certs.clone(), host.clone());
+        rrdpsrv::serve_host(&host, Arc::new(move |uri, _etag, _lm| {
+            if !*reachable.lock().unwrap() { return Some(HttpAnswer::Unreachable) }
+            for (tal, name) in [("alpha", "taa"), ("beta", "tab")] {
+                if uri == format!("https://{host2}/ta/{name}.cer") {
+                    return certs.get(tal).map(|b| HttpAnswer::Response(rrdpsrv::resp(200, vec![], b.clone())))
+                }
+            }
+            Some(HttpAnswer::Response(rrdpsrv::resp(404, vec![], Vec::new())))
+        }))
+    };
+    case.publish(&image);
+    let origin_of = |i: usize| crate::data::origin(&format!("10.{i}.0.0"), 16, 16, 64496 + i as u32);
+    let mut outcome = String::new();
+    let mut step = |label: &str, want: [bool; 2]| -> Result<(), (String, String)> {
+        let out = etree::run(&config, false, &LocalExceptions::empty()).map_err(|e| ("run-failed".to_string(), e))?;
+        for i in 0..2 {
+            let has = out.data.origins.contains(&origin_of(i));
+            if has != want[i] {
+                return Err((if has { "unbound-trust-anchor-used" } else { "usable-trust-anchor-ignored" }.into(), format!(
+                    "two TALs with trust anchor certificates side by side ({}), {label}: TAL {} {}",
+                    if c.https { "https" } else { "rsync" }, ["alpha", "beta"][i],
+                    if has { "contributes although it has no valid trust anchor certificate" } else { "contributes nothing although its valid certificate is stored" }
+                )))
+            }
+        }
+        outcome.push_str(&format!("{}{} ", want[0] as u8, want[1] as u8));
+        Ok(())
+    };
+    step("first run, both downloads fine", [true, true])?;
+    let live = [c.short != Some(0), c.short != Some(1)];
+    if c.short.is_some() {
+        let wait = std::time::Duration::from_secs(PAIR_SHORT_LIFE as u64 + 1).saturating_sub(built.elapsed());
+        std::thread::sleep(wait);
+        step("second run after one certificate expired", live)?;
+    }
+    // https: the server is gone; rsync: the certificates have vanished
+    // upstream (an unreachable module would leave the collector's copy)
+    *reachable.lock().unwrap() = false;
+    for name in ["taa", "tab"] { let _ = fs::remove_file(case.remote_path(&format!("rsync://{host}/ta/{name}.cer"))); }
+    step("last run, no trust anchor certificate can be downloaded", live)?;
+    let _ = fs::remove_dir_all(&case.dir);
+    Ok(outcome.trim().to_string())
+}
+
+fn pair_cases() -> Vec<PairSpec> {
+    let mut res = Vec::new();
+    for https in [false, true] { for short in [None, Some(0), Some(1)] { res.push(PairSpec { https, short }); } }
+    res
+}
+
 fn cases(thorough: bool) -> Vec<CaseSpec> {
     let mut res = Vec::new();
     for shape in [Shape::Https, Shape::Rsync] {
@@ -255,7 +358,13 @@ pub fn run(ctx: &Ctx) -> Report {
         iff its key equals the TAL key and it is valid; both variants of \
         whether an unacceptable decodable download replaces the stored \
         copy are accepted); the stored file is byte-identical after an \
-        undecodable or failed download; non-trivial = histories with at \
+        undecodable or failed download; plus two TALs whose trust anchor \
+        certificates sit side by side (same host and rsync module / https \
+        directory, both transports): both fetched, then none can be \
+        downloaded - both must contribute from the store; and with either \
+        certificate living 3 s only: after a real wait and a run in which \
+        cleanup drops the expired copy, the other TAL must still \
+        contribute when no download works; non-trivial = histories with at \
         least one non-good answer".into();
     rep.bound = format!("{} two-run histories", cases.len());
     let threads = std::env::var("ETREE_THREADS").ok().and_then(|s| s.parse().ok()).unwrap_or(8);
@@ -277,6 +386,26 @@ pub fn run(ctx: &Ctx) -> Report {
             }
         }
     }
+    // two TALs side by side
+    let pairs = pair_cases();
+    let base = cases.len();
+    let res = util::par_map(pairs.len() as u64, threads, |i| {
+        util::catch(|| run_pair(&gen, ctx.scratch.join(format!("p{i}")), base + i as usize, &pairs[i as usize]))
+            .unwrap_or_else(|p| Err(("panic".into(), p)))
+    });
+    for (i, r) in res.into_iter().enumerate() {
+        let c = &pairs[i];
+        rep.evaluations += 1;
+        rep.nontrivial += 1;
+        match r {
+            Ok(o) => rep.outcome(format!("pair:{o}")),
+            Err((class, msg)) => {
+                rep.outcome(format!("VIOLATION:{class}"));
+                rep.violation(format!("ta:{class}:pair:{}:{}", if c.https { "https" } else { "rsync" }, if c.short.is_some() { "one-expires" } else { "both-live" }), msg,
+                    json!({"pair": true, "https": c.https, "short": c.short}));
+            }
+        }
+    }
     rep.sample(json!({"shape": "HttpsRsync", "runs": [["Good", "Unreachable"], ["Undecodable", "OtherKey"]], "key_switch": false}));
     rep.assumptions.push("the publication point below the trust anchor is always served intact over rsync and signed by the first key; certificates generated as for C01".into());
     rep
@@ -285,6 +414,15 @@ pub fn run(ctx: &Ctx) -> Report {
 pub fn replay(ctx: &Ctx, v: &Value) -> Report {
     let gen = Gen::load();
     let mut rep = Report::new("fault_enumeration");
+    if v["pair"].as_bool() == Some(true) {
+        let c = PairSpec { https: v["https"].as_bool().unwrap_or(false), short: v["short"].as_u64().map(|x| x as usize) };
+        let r = run_pair(&gen, ctx.scratch.join("replay"), 99998, &c);
+        println!("{c:?}: {r:?}");
+        if let Err((class, msg)) = r { rep.violation(format!("ta:{class}:pair"), msg, v.clone()) }
+        rep.evaluations = 1; rep.nontrivial = 2;
+        rep.sample(v.clone());
+        return rep
+    }
     let shape = match v["shape"].as_str() { Some("Https") => Shape::Https, Some("Rsync") => Shape::Rsync, Some("RsyncHttps") => Shape::RsyncHttps, _ => Shape::HttpsRsync };
     let parse = |s: &str| ANSWERS.iter().find(|a| format!("{a:?}") == s).copied().unwrap_or(Ans::Good);
     let runs: Vec<Vec<Ans>> = v["runs"].as_array().map(|rs| rs.iter().map(|r| r.as_array().map(|x| x.iter().map(|a| parse(a.as_str().unwrap_or(""))).collect()).unwrap_or_default()).collect()).unwrap_or_default();
